@@ -2,6 +2,7 @@ import Gleece.Properties.C10
 import Gleece.Properties.Link
 import Gleece.Properties.C10Complete
 import Gleece.Properties.C10Common
+import Gleece.Properties.C10Exact
 #print axioms Gleece.Validate.returns_sound
 #print axioms Gleece.Validate.linkValidate_nil_parts
 #print axioms Gleece.Validate.params_referenced
@@ -43,3 +44,6 @@ import Gleece.Properties.C10Common
 #print axioms Gleece.Validate.goPath_values_nodup
 #print axioms Gleece.Validate.accepted_is_wellLinked_partial
 #print axioms Gleece.Validate.link_accepts_iff_partial
+#print axioms Gleece.Validate.linkValidate_all_err
+#print axioms Gleece.Validate.linkValidate_nil_of_noerr
+#print axioms Gleece.Validate.accepted_route_is_well_formed_partial
